@@ -109,6 +109,18 @@ pub fn dress(scn: &mut Scenario, rng: &mut Rng, consistent_chain: bool) {
             r.dump_in_data = true;
         }
     }
+    // the coin is what `-c` says (bitcoin when absent), not what the directory is called
+    if rng.chance(1, 5) {
+        let alias = rng.pick(&[".bitcoin", "testnet3", ".litecoin", "dogecoin", ".namecoin", "regtest", "signet"]).to_string();
+        for r in scn.runs.iter_mut() {
+            r.dir_alias = Some(alias.clone());
+        }
+    }
+    if scn.coin == "bitcoin" && rng.chance(1, 4) {
+        for r in scn.runs.iter_mut() {
+            r.omit_coin = true;
+        }
+    }
     if rng.chance(1, 5) {
         let v = rng.range(1, 2) as u8;
         for r in scn.runs.iter_mut() {
